@@ -1040,6 +1040,21 @@ impl<'a> Gen<'a> {
                     return Op::MoveWithin(d, r, *self.rng.pick(&sub));
                 }
             }
+            if self.w.doms.len() >= 2 && !nonroot.is_empty() && (cfg.cycle_probe || self.rng.chance(30)) && self.rng.chance(50) {
+                // a transfer into another DOM whose destination parent is not an instance of that DOM: an instance
+                // inside the moved subtree (the cross-DOM cycle of /repo 2a3a8420), the moved instance itself, an
+                // instance that stays behind in the source, or a dead referent (each must panic, nothing may move)
+                let d2 = (d + 1 + self.rng.below(self.w.doms.len() as u64 - 1) as usize) % self.w.doms.len();
+                let r = *self.rng.pick(&nonroot);
+                let sub: Vec<u64> = self.subtree(d, r).into_iter().collect();
+                let dest = match self.rng.below(4) {
+                    0 => r,
+                    1 => dead,
+                    2 => root,
+                    _ => *self.rng.pick(&sub),
+                };
+                return Op::Move(d, r, d2, dest);
+            }
             return match self.rng.below(7) {
                 0 => Op::Destroy(d, root),
                 1 => Op::Destroy(d, dead),
